@@ -4,6 +4,7 @@ import Chewing.Proofs.PersistEditor
 import Chewing.Proofs.PersistTerm
 import Chewing.Proofs.PersistSql
 import Chewing.Proofs.DictLink
+import Chewing.Proofs.DictLinkBytes
 /-!
 # C10 — User-dictionary changes are durable; the file is replaced atomically
 
@@ -564,11 +565,14 @@ about contents become theorems here, each resting on the C09 theorem named:
   the key twice, persisted value first, and `TrieBuilder::insert` replaces in place — the order of
   `trie_iter.chain(btree_iter)` is what makes the written value the map's, `snapshot_order_matters`).
 
-What remains assumed about files: a complete file is the `List Leaf` written (`Trie.build es` is
-"insert all, write, open" in C09's model) — the byte-level round trip of that is C11
-(`read_write` / `lookup_correct`); it is NOT yet bridged to C09's `Trie.build` (needs `refFind = leafOf`
-and a permutation argument: C09's `leafCmp` still has the comparator from before the repair, so the
-two models order a leaf that mixes single characters and longer phrases differently). -/
+Files.  In `DictLink` a complete file is the `List Leaf` written (`Trie.build es` is "insert all, write,
+open" in C09's model).  That this abstraction is faithful is no longer assumed: `C09.file_layer_is_C11`
+(`Proofs/TrieLink.lean`) proves from C11's theorems that the bytes `TrieBuilder::write` produces for
+`es` denote exactly `Trie.build es` under the real reader, and `Proofs/DictLinkBytes.lean` proves that
+along every run every complete file is such a `Trie.build es` with `es` valid and within the size limits
+(`Tracked`).  `durable_lookup_bytes_linked` below is the end-to-end statement with the file as **bytes**;
+its explicit extra hypotheses are C11's: arguments of the Rust types (`CActValid`) and every snapshot
+of the history within the format's limits (`SnapshotsOk … Fits`, as `C11.writes_within_limits`). -/
 
 namespace Chewing.C10
 open Chewing.Persist Chewing.DictLink
@@ -669,5 +673,137 @@ example : ∀ a ∈ ([.add [10268] [28204] 5 none, .update [10268] [28204] 9 7] 
   intro a ha
   simp only [List.mem_cons, List.not_mem_nil, or_false] at ha
   rcases ha with rfl | rfl <;> (show TrieBuf.inRange _ = true) <;> decide
+
+/-! ### the same with the file as bytes (C11 under C09 under C10) -/
+
+theorem isEntries_perm {m : MapSpec.Map} {l1 l2 : List Entry} (hp : l1.Perm l2) (h : MapSpec.IsEntries m l2) :
+    MapSpec.IsEntries m l1 := by
+  refine ⟨(hp.map _).nodup_iff.mpr h.1, fun e he => h.2.1 e (hp.mem_iff.mp he), ?_⟩
+  intro k t v hm
+  obtain ⟨e, he, h1, h2⟩ := h.2.2 k t v hm
+  exact ⟨e, hp.mem_iff.mpr he, h1, h2⟩
+
+theorem lookupAll_freshSt (t : List Leaf) (k : List Nat) (st : Strategy) :
+    TrieBuf.lookupAll (freshSt t) k st = dedup (Trie.lookupAll t k st) := by
+  have h : ∀ l : List Phrase, l.filter (fun _ => true) = l := fun l => List.filter_eq_self.mpr (fun _ _ => rfl)
+  simp [TrieBuf.lookupAll, TrieBuf.entriesIterFor, freshSt, TrieBuf.initFile, TrieBuf.initMem, TrieBuf.btreeRange, h]
+
+theorem entries_freshSt (t : List Leaf) : TrieBuf.entries (freshSt t) = Trie.entries t := by
+  simp [TrieBuf.entries, freshSt, TrieBuf.initFile, TrieBuf.initMem, TrieBuf.btEntries]
+
+/-- the size limits of the trie format (C11's `Builder.Fits`) for a file with metadata `info` -/
+def FitsInfo (info : TrieCodec.Info) (es : List Entry) : Prop := (TrieCodec.Builder.ofEntries info es).Fits
+
+/-- **END TO END, with the file as bytes.**  The user dictionary is opened on the file written from
+    the valid entries `es0`; the history makes `add_phrase` / `update_phrase` calls with arguments of the
+    Rust types (`CActValid`) and phrases not beginning with U+10FFFF (`CActOk`), `remove_phrase`, `flush`,
+    `reopen`, under **every** schedule of the snapshot writer, over any number of close / open cycles;
+    every snapshot the history can take is within the limits of the trie format (`SnapshotsOk`: the
+    hypothesis of `C11.writes_within_limits`, under which `TrieBuilder::write` does not fail); at the end
+    the dictionary is closed.  Then the file at the path is `TrieBuilder::write` of a list `es` of valid
+    entries: the **bytes** exist, `Trie::new` opens them with the metadata written, and the real
+    reader (C11's byte-level `lookup_all_phrases`, `lookup_first_n_phrases`, `entries`)
+    * answers every exact lookup of a key of non-zero syllables as the map `MapSpec` computes from the
+      calls made, `lookup_first_n_phrases` being its first `n`;
+    * enumerates exactly that map, each (syllables, phrase) once;
+    * is what a `TrieBuf` opened on the file reads through: its lookups (both strategies) are the
+      de-duplicated byte-level lookups, so its prefix lookups are that map's too. -/
+theorem durable_lookup_bytes_linked (info : TrieCodec.Info) (hinfo : TrieCodec.ValidInfo info)
+    (es0 : List Entry) (hv0 : ∀ e ∈ es0, TrieCodec.ValidEntry e) (hfit0 : FitsInfo info es0)
+    (tmp : Option CFile) (htmp : TmpWritten (FitsInfo info) tmp)
+    (acts : List CAct) (hok : ∀ a ∈ acts, CActOk a) (hval : ∀ a ∈ acts, CActValid a)
+    (hfit : SnapshotsOk (FitsInfo info) (cinit (Trie.build es0) tmp) acts)
+    (cw : CWorld) (hrun : crun (cinit (Trie.build es0) tmp) acts = some cw) (hcl : cw.phase = .closed) :
+    ∃ es bytes tr, cw.fs .path = some (.complete (Trie.build es)) ∧ (∀ e ∈ es, TrieCodec.ValidEntry e) ∧
+      (TrieCodec.Builder.ofEntries info es).write = some bytes ∧
+      TrieCodec.openTrie bytes = some tr ∧ TrieCodec.about tr = info ∧
+      TrieLink.Denotes bytes (Trie.build es) ∧
+      (∀ k, C11.ValidKey k → MapSpec.IsLookup (MapSpec.Map.run (TrieBuf.baseGet (Trie.build es0)) (opsOf acts)) k
+        (TrieCodec.lookupAll tr k .standard)) ∧
+      (∀ k n st, C11.ValidKey k → TrieCodec.lookupFirstN tr k n st = (TrieCodec.lookupAll tr k st).take n) ∧
+      (∃ ents, TrieCodec.entries tr = .ok ents ∧
+        MapSpec.IsEntries (MapSpec.Map.run (TrieBuf.baseGet (Trie.build es0)) (opsOf acts)) ents) ∧
+      (∀ k st, C11.ValidKey k →
+        TrieBuf.lookupAll (freshSt (Trie.build es)) k st = dedup (TrieCodec.lookupAll tr k st)) ∧
+      (∀ q, C11.ValidKey q → Trie.fuzzyMatch q q = true →
+        MapSpec.IsFuzzyLookup Trie.fuzzyMatch (MapSpec.Map.run (TrieBuf.baseGet (Trie.build es0)) (opsOf acts)) q
+          (dedup (TrieCodec.lookupAll tr q .fuzzyPartialPrefix))) := by
+  have h0 : Written (FitsInfo info) (Trie.build es0) := ⟨es0, hv0, hfit0, rfl⟩
+  obtain ⟨t, hpath, hsnap, heq, habs, _, hent, hfz⟩ :=
+    durable_lookup_linked (Trie.build es0) h0.snapOk tmp htmp.ok acts hok cw hrun hcl
+  have htr := tracked_run (tracked_init h0 htmp) hval hfit hrun
+  obtain ⟨es, hv, hf, rfl⟩ := htr.files .path t hpath
+  have hvi : C11.ValidInput info es := ⟨hinfo, hv⟩
+  obtain ⟨bytes, hw, hden⟩ := TrieLink.build_denotes_fits info es hvi hf
+  obtain ⟨tr, hopen, hlook, hfirst, _, ents, hents, hperm, _⟩ := hden.reads
+  obtain ⟨tr', hopen', habout⟩ := C11.info_roundtrip info es hvi bytes hw
+  have etr : tr' = tr := Option.some.inj (hopen'.symm.trans hopen)
+  rw [etr] at habout
+  have hmap : MapSpec.Map.run (TrieBuf.baseGet (Trie.build es0)) (opsOf acts) = TrieBuf.baseGet (Trie.build es) := by
+    funext pk; exact (heq pk).symm
+  refine ⟨es, bytes, tr, hpath, hv, hw, hopen, habout, hden, ?_, ?_, ⟨ents, hents, ?_⟩, ?_, ?_⟩
+  · intro k hk
+    rw [hlook k .standard hk, hmap]
+    exact isLookup_baseGet hsnap k
+  · intro k n st hk
+    rw [hfirst k n st hk, hlook k st hk]
+    unfold Trie.lookupFirstN Trie.lookupAll
+    rw [Trie.take_collect]; simp
+  · rw [entries_freshSt] at hent
+    exact isEntries_perm hperm hent
+  · intro k st hk
+    rw [lookupAll_freshSt, hlook k st hk]
+  · intro q hq hqq
+    have := hfz q hqq
+    rw [lookupAll_freshSt, ← hlook q .fuzzyPartialPrefix hq] at this
+    exact this
+
+/-- the size limits hold for the empty file and for the one-entry file of the example -/
+theorem fitsInfo_empty : FitsInfo {} [] := by
+  refine ⟨?_, ?_⟩
+  · show TrieCodec.Item.Fits (.node 0 none .nil)
+    exact ⟨(fun ps h => by cases h), (by decide), trivial⟩
+  intro recs data h
+  have hb : (TrieCodec.Builder.ofEntries {} []).buffers = some ([(1, 0, 0)], []) := by decide
+  rw [hb] at h
+  cases h
+  decide
+
+theorem fitsInfo_one : FitsInfo {} [([10268], { text := [28204], freq := 5, lastUsed := some 0 })] := by
+  refine ⟨?_, ?_⟩
+  · show TrieCodec.Item.Fits (.node 0 none (.cons 10268 (some [{ text := [28204], freq := 5, lastUsed := some 0 }]) .nil .nil))
+    refine ⟨(fun ps h => by cases h), (by decide), ⟨?_, (by decide), trivial, trivial⟩⟩
+    intro ps h
+    cases h
+    decide
+  intro recs data h
+  have hb : (TrieCodec.Builder.ofEntries {} [([10268], { text := [28204], freq := 5, lastUsed := some 0 })]).buffers =
+      some ([(1, 1, 0), (2, 1, 10268), (0, 13, 0)], [48, 11, 12, 3, 230, 184, 172, 2, 1, 5, 128, 1, 0]) := by decide
+  rw [hb] at h
+  cases h
+  decide
+
+/-- non-vacuity of `durable_lookup_bytes_linked`: learn 測 under ㄘㄜˋ on a fresh dictionary and drop it — the
+    run exists, ends closed, and every snapshot along it fits the format -/
+example : ∃ cw, crun (cinit (Trie.build []) none)
+      [.add [10268] [28204] 5 none, .close, .d, .d, .d, .w, .w, .w, .w, .w, .w, .w, .w, .w, .d] = some cw ∧
+    cw.phase = .closed ∧
+    SnapshotsOk (FitsInfo {}) (cinit (Trie.build []) none)
+      [.add [10268] [28204] 5 none, .close, .d, .d, .d, .w, .w, .w, .w, .w, .w, .w, .w, .w, .d] := by
+  refine ⟨_, rfl, rfl, ?_⟩
+  refine snapshotsOk_cons fitsInfo_empty _ rfl ?_
+  iterate 14 refine snapshotsOk_cons fitsInfo_one _ rfl ?_
+  exact snapshotsOk_nil fitsInfo_one
+
+/-- non-vacuity of the hypotheses of `durable_lookup_bytes_linked`: the calls of the example run above
+    have arguments of the Rust types -/
+example : ∀ a ∈ ([.add [10268] [28204] 5 none, .update [10268] [28204] 9 7, .flush, .close] : List CAct), CActValid a := by
+  intro a ha
+  simp only [List.mem_cons, List.not_mem_nil, or_false] at ha
+  rcases ha with rfl | rfl | rfl | rfl
+  · exact ⟨⟨by decide, by decide⟩, by decide, by decide⟩
+  · exact ⟨⟨by decide, by decide⟩, by decide, by decide⟩
+  · trivial
+  · trivial
 
 end Chewing.C10
